@@ -10,7 +10,8 @@ ATOMS = ["a", "b", "c", "x", "y", "s", "k", "str", "num", "nul", "undef", "'lit'
 ARGS = ["", "a", "'lit'", "a, b", "f(), b", "...r", "a, ...r", "m, a", "a, m", "[a, b]", "[[x, y], z]", "o.p, f()", "undef", "1, 2"]
 METHODS = ["trim", "substring", "concat", "replace", "slice", "trimStart", "toUpperCase", "foo"]
 RECV = ["a", "str", "'lit'", "f()", "o.p", "(a)", "[a, b]", "m", "this", "`t${a}`", "str.trim()", "nul", "undef", "o[k]", "f.str()"]
-TARGETS = ["x", "o.p", "o[k]", "o[f()]", "f().p", "o.p.q", "arr[i++]", "this.v", "m.p", "o[a + b]"]
+TARGETS = ["x", "o.p", "o[k]", "o[f()]", "f().p", "o.p.q", "arr[i++]", "this.v", "m.p", "o[a + b]", "o[-k]", "o[+k]", "(o[-k])", "o[`${k}`]", "o[k ? 'a' : 'b']",
+           "o[k.p]", "o[typeof k]", "o[!k]", "o[~k]", "o[k - 1]", "o[(k, 1)]", "o[k?.p]", "o.p[-k]", "o[k][-i]", "o[-1]", "o[m]", "o[-m]", "o[m.p]"]
 ARRS = ["[a, b]", "[]", "[a, , b]", "[...r]", "[a, ...r]", "[[x, y], z]", "[f(), g()]", "arr", "...r", "[m, a]"]
 
 
@@ -56,6 +57,10 @@ def expr(rng, d=0):
         lambda: "`${%s}${(%s + %s + %s) ? x : y}`" % (rng.choice(["f()", "g(a)"]), rng.choice(["g(a)", "a"]), rng.choice(["f.str()", "g(b)"]), rng.choice(["f()", "b"])),
         lambda: "%s.concat(((%s + %s) ? f.str() : 'S'), %s)" % (rng.choice(["f.str()", "str"]), rng.choice(["g(a)", "f.str()"]), rng.choice(["f.str()", "g(b)"]), sub()),
         lambda: "(%s ? %s + %s : %s) + %s" % (sub(), par(sub()), par(sub()), sub(), par(sub())),
+        # a bare comma expression where the grammar allows a full Expression
+        lambda: "`x${%s, %s}y`" % (sub(), sub()),
+        lambda: "(o[%s, k] += %s)" % (sub(), sub()),
+        lambda: "o[%s, 'p'].trim()" % sub(),
     ]
     e = rng.choice(forms)()
     if e.startswith("{"):
